@@ -56,15 +56,43 @@ type bufSource struct {
 
 const arenaWindows = 24
 
-func newBufSource(c cell, r *rand.Rand) *bufSource {
+var (
+	execKinds = []string{"arena", "varlen", "arena", "reorder", "sync", "varlen", "fresh"}
+	hookKinds = []string{"hook-arena", "hook-varlen", "hook-arena-keep"}
+)
+
+// newBufSource: in the full matrix the kind is drawn per cell; in the rotating subset it is a function of the seed and of
+// the (mode, transport) of the cell, so that every run has the arena and the varying-length executor in ET and in
+// one-shot mode and every hook kind; force != "" overrides (replay).
+func newBufSource(c cell, r *rand.Rand, seed int64, full bool, force string) *bufSource {
 	s := &bufSource{Kind: "default", n: c.effRBS(), udp: c.Transport == "udp", problems: map[string]string{}}
+	pick := r.Intn(1 << 20) // always drawn: the cell's other random choices do not depend on the kind
 	if !c.Custom {
 		return s
 	}
+	tr := 0
+	for k, t := range transports {
+		if t == c.Transport {
+			tr = k
+		}
+	}
 	if c.Async && c.Mode != 0 {
-		s.Kind = []string{"fresh", "arena", "arena", "varlen", "sync", "reorder"}[r.Intn(6)]
+		j := (c.Mode-1)*3 + tr
+		if full {
+			s.Kind = execKinds[pick%len(execKinds)]
+		} else {
+			s.Kind = execKinds[(j+int(seed%6)+6)%6] // the first six: fresh only in the full matrix
+		}
 	} else {
-		s.Kind = []string{"hook-arena", "hook-arena-keep", "hook-varlen"}[r.Intn(3)]
+		j := c.Mode*3 + tr + b2i(c.Async)
+		if full {
+			s.Kind = hookKinds[pick%len(hookKinds)]
+		} else {
+			s.Kind = hookKinds[(j+int(seed%3)+3)%3]
+		}
+	}
+	if force != "" {
+		s.Kind = force
 	}
 	switch s.Kind {
 	case "arena", "hook-arena", "hook-arena-keep":
@@ -134,8 +162,8 @@ func (s *bufSource) putWindow(i int) {
 }
 
 func (s *bufSource) varLen(id int64) int {
-	min := 1
-	if s.udp {
+	min := 1 + s.n/64 // not absurdly small for a large configured size: a read per byte of a 600 KB stream costs seconds
+	if s.udp && min < 3 {
 		min = 3
 	}
 	opts := []int{s.n, s.n, s.n - 1, s.n/2 + 1, min, s.n/3 + 1}
